@@ -1,10 +1,14 @@
 (* C03: valued A/L rows are mark-to-market within the truncation allowance; a missing price fails.
    Every row of the asset/liability section on which an asset/liability account of the journal lands
    (itself without --mapping/--remap; the row remap and the first matching mapping rule send it to
-   otherwise) is compared with Spec.ValuationMappedSpec.mtm_row_mapped: the sum over the accounts
-   that land on the row (Spec.MarkToMarketMappedSpec.sources_of) of ValuationSpec.mtm_expected,
-   within the sum of ValuationSpec.step_bound (C03_windowed_mapped, C03_model_meets_spec_mapped;
-   for a row with the single source itself this is mtm_row of C03_model_meets_spec).  An
+   otherwise) is compared with Spec.ValuationWhereSpec.mtm_row_where_mapped: the sum over the accounts
+   that land on the row and pass --account (Spec.MarkToMarketMappedSpec.sources_of) of
+   mtm_expected_where (the mark-to-market change of the held commodities that pass --commodity, at
+   the prices of the whole journal), within the sum of step_bound_where
+   (C03_windowed_mapped_where, C03_model_meets_spec_where_mapped: every configuration; without
+   filters this is mtm_row_mapped of C03_model_meets_spec_mapped, and for a row with the single
+   source itself mtm_row of C03_model_meets_spec).  A printed row on which no account that passes
+   --account lands must be empty (C03_filtered_out_row_zero).  An
    expectation that is undefined although a report was printed is a failure
    (C03_expected_defined).  An empty cell is the value 0; a row that is not printed is 0 in every
    column.
